@@ -5,7 +5,7 @@ use crate::sym::Sym;
 use crate::explore::Out;
 
 #[derive(Clone, Copy, Debug, PartialEq)]
-pub enum Dom { Mixed, Positive, Unit01, SmallInt }
+pub enum Dom { Mixed, Positive, Unit01, SmallInt, NonZero }
 
 pub struct Entry {
     pub name: String,
